@@ -1,4 +1,5 @@
 // C01 (also feeds C07): load/save round trips of sample and synthesised files.
+//   c01-probe <out.ndjson> <jobs> [cap]      value sweep: settings of one or two generator fields that steer a block's layout
 //   c01-synth <out.ndjson> <versionsCsv|all> <modesCsv> <typeStride> <typeOffset> <boost:0|1>
 //       for each type x version x mode: synthesise, save raw (f0), load, save raw (F1), load, save raw (F2), save raw (F3);
 //       default-save chain G1,G2,G3 by repeated load-then-save. Abstract files are logged for the round-trip machine.
@@ -6,6 +7,8 @@
 #include "battery.hpp"
 #include "hooks.hpp"
 #include "synth.hpp"
+#include <sys/wait.h>
+#include <unistd.h>
 
 using namespace nifly;
 using namespace vh;
@@ -198,6 +201,7 @@ int cmdRun(int argc, char** argv) {
 		JV c = jparse(cfgs[k]);
 		JObj o;
 		o.add("type", c["type"].s).add("ver", c["ver"].s).add("mode", (long long) c["mode"].n).add("boost", (long long) c["boost"].n).add("seed", (long long) seed);
+		if (c.has("ov") && !c["ov"].a.empty()) o.raw("ov", toJson(c["ov"]));
 		return o.done();
 	};
 	size_t crashes = runForkedCases(
@@ -207,7 +211,12 @@ int cmdRun(int argc, char** argv) {
 			NifFile nif;
 			SynthInfo si;
 			int boost = (int) c["boost"].n;
-			if (!synthFile(nif, c["type"].s, c["ver"].s, (int) c["mode"].n, seed, boost, &si)) {
+			std::vector<std::pair<int, long long>> ov;
+			if (c.has("ov"))
+				for (auto& e : c["ov"].a) ov.emplace_back((int) e.a[0].n, (long long) e.a[1].n);
+			bool made = ov.empty() ? synthFile(nif, c["type"].s, c["ver"].s, (int) c["mode"].n, seed, boost, &si)
+								   : synthFileOv(nif, c["type"].s, c["ver"].s, (int) c["mode"].n, seed, ov, &si);
+			if (!made) {
 				out += "{\"e\":\"discard\",\"case\":" + caseOf(k) + ",\"why\":\"generator budget\"}\n";
 				return;
 			}
@@ -229,7 +238,149 @@ int cmdRun(int argc, char** argv) {
 	printf("{\"cases\":%zu,\"crashes\":%zu}\n", cfgs.size(), crashes);
 	return 0;
 }
+// c01-probe <out.ndjson> <jobs>: value sweep. For every (type, version) the reader is run on the generator (mode 2) with one
+// scalar field at a time set to each small value, and - on top of every setting that changed what the reader asked for -
+// with one later field set as well. A setting counts when the sequence of (kind, size) the reader asks for is one not seen
+// before for that (type, version): the values that steer the layout of a block (enumerations, flags, "no string"). The
+// settings found are extra configurations of the round-trip machine.
+int cmdProbe(int argc, char** argv) {
+	if (argc < 3) return 2;
+	std::string outPath = argv[1];
+	int jobs = std::max(1, atoi(argv[2]));
+	size_t cap = argc > 3 ? strtoul(argv[3], nullptr, 10) : 0; // settings kept per (type, version); 0 = all
+	auto types = allBlockTypes();
+	uint64_t seed = seedFromEnv();
+	std::vector<pid_t> kids;
+	for (int j = 0; j < jobs; j++) {
+		pid_t pid = fork();
+		if (pid == 0) {
+			{
+			Out out(outPath + "." + std::to_string(j));
+			for (size_t ti = size_t(j); ti < types.size(); ti += size_t(jobs)) {
+				// each type in its own child: a value may send the reader into a very long loop or out of memory
+				std::string buf;
+				std::string why;
+				std::string part = outPath + "." + std::to_string(j) + ".t";
+				int rc = forkRun(
+					[&]() -> int {
+						Out po(part);
+						for (auto& kv : synthVersions()) {
+							std::set<uint64_t> seen;
+							size_t kept = 0;
+							auto probe = [&](const std::vector<std::pair<int, long long>>& ov, SynthInfo& si) -> bool {
+								NifFile nif;
+								bool ok = false;
+								try {
+									ok = synthFileOv(nif, types[ti], kv.first, 2, seed, ov, &si);
+								}
+								catch (...) {
+									ok = false;
+								}
+								return ok;
+							};
+							SynthInfo base;
+							if (!probe({}, base)) continue;
+							seen.insert(base.tape);
+							auto sweepable = [](int kind) { return kind == verif::FK_ENUM || kind == verif::FK_INT || kind == verif::FK_RAW || kind == verif::FK_BOOL || kind == -1 || kind == -3; };
+							auto valuesOf = [](int kind) {
+								std::vector<long long> v;
+								if (kind == -3) v = {-1, 0};
+								else if (kind == verif::FK_BOOL) v = {0, 1};
+								else
+									for (long long x = 0; x <= 21; x++) v.push_back(x);
+								return v;
+							};
+							struct Found {
+								std::vector<std::pair<int, long long>> ov;
+								std::vector<int> kinds;
+							};
+							std::vector<Found> level1;
+							size_t n1 = std::min<size_t>(base.scalarKinds.size(), 40);
+							for (size_t k = 0; k < n1; k++) {
+								if (!sweepable(base.scalarKinds[k])) continue;
+								for (auto x : valuesOf(base.scalarKinds[k])) {
+									SynthInfo si;
+									std::vector<std::pair<int, long long>> ov = {{int(k), x}};
+									if (!probe(ov, si)) continue;
+									if (!seen.insert(si.tape).second) continue;
+									level1.push_back({ov, si.scalarKinds});
+									if (cap && kept >= cap) continue;
+									kept++;
+									JArr a;
+									JArr e;
+									e.add((long long) k).add(x);
+									a.add(e);
+									JObj o;
+									o.add("type", types[ti]).add("ver", kv.first).add("mode", 2LL).raw("ov", a.done());
+									po.line(o.done());
+								}
+							}
+							// second level: one later field on top of each first-level setting
+							size_t budget = 4000;
+							for (auto& f : level1) {
+								size_t n2 = std::min<size_t>(f.kinds.size(), 40);
+								for (size_t k = size_t(f.ov[0].first) + 1; k < n2 && budget; k++) {
+									if (!sweepable(f.kinds[k])) continue;
+									for (auto x : valuesOf(f.kinds[k])) {
+										if (!budget) break;
+										budget--;
+										SynthInfo si;
+										auto ov = f.ov;
+										ov.emplace_back(int(k), x);
+										if (!probe(ov, si)) continue;
+										if (!seen.insert(si.tape).second) continue;
+										if (cap && kept >= cap) continue;
+										kept++;
+										JArr a;
+										for (auto& q : ov) {
+											JArr e;
+											e.add((long long) q.first).add(q.second);
+											a.add(e);
+										}
+										JObj o;
+										o.add("type", types[ti]).add("ver", kv.first).add("mode", 2LL).raw("ov", a.done());
+										po.line(o.done());
+									}
+								}
+							}
+						}
+						return 0;
+					},
+					120, why, 2048);
+				(void) rc;
+				// whatever the child managed to write (complete lines only) counts
+				std::string got = readFile(part);
+				size_t nl = got.rfind('\n');
+				if (nl != std::string::npos) {
+					got.resize(nl + 1);
+					fwrite(got.data(), 1, got.size(), out.f);
+				}
+				unlink(part.c_str());
+			}
+			}
+			_exit(0);
+		}
+		kids.push_back(pid);
+	}
+	for (auto p : kids) {
+		int st = 0;
+		waitpid(p, &st, 0);
+	}
+	Out out(outPath);
+	size_t n = 0;
+	for (int j = 0; j < jobs; j++) {
+		std::string part = outPath + "." + std::to_string(j);
+		for (auto& l : readLines(part)) {
+			out.line(l);
+			n++;
+		}
+		unlink(part.c_str());
+	}
+	printf("{\"settings\":%zu}\n", n);
+	return 0;
+}
 Reg r0("synth-types", cmdTypes);
+Reg r4("c01-probe", cmdProbe);
 Reg r3("c01-run", cmdRun);
 Reg r1("c01-synth", cmdSynth);
 Reg r2("c01-samples", cmdSamples);
